@@ -754,6 +754,9 @@ func TestC12(t *testing.T) {
 		res.NonTrivial = true
 		return res
 	}, NoJournal: true, HangLimit: 300 * time.Second}, 0)
+	core.DFS(r, core.Check[coldParseCase]{Name: "cold-start", Gen: func(s core.Source) coldParseCase {
+		return coldParseCase{Kind: "reject", Children: r.N(12, 60)}
+	}, Exec: execColdParse("C12"), NoJournal: true, HangLimit: 1800 * time.Second}, 0)
 	core.DFS(r, core.Check[longParserCase]{Name: "long-lived-parser", Gen: func(s core.Source) longParserCase {
 		return longParserCase{Docs: r.N(12000, 60000), Notation: s.Choose(2, "notation") == 1}
 	}, Exec: execLongParser("C12"), NoJournal: true, HangLimit: 600 * time.Second}, 0)
